@@ -57,7 +57,14 @@ class BoundedStream(io.IOBase):
         return self
 
     def __next__(self) -> bytes:
-        return next(self.stream)
+        # NOTE: Do not proxy to next(self.stream): the wrapped stream knows
+        #   nothing about the expected content length, and would block or
+        #   return data beyond the end of the request body.
+        line = self.readline()
+        if not line:
+            raise StopIteration
+
+        return line
 
     next = __next__
 
